@@ -14,6 +14,9 @@ pub struct Trace {
     pub samples: Vec<String>,
     sample_stride: u64,
     pub rule: String,
+    distinct_by_op: BTreeMap<String, HashSet<u64>>,
+    evals_by_op: BTreeMap<String, u64>,
+    samples_by_op: BTreeMap<String, Vec<String>>,
 }
 
 fn fnv(s: &str) -> u64 {
@@ -36,6 +39,9 @@ impl Trace {
             samples: Vec::new(),
             sample_stride: 1,
             rule: String::new(),
+            distinct_by_op: BTreeMap::new(),
+            evals_by_op: BTreeMap::new(),
+            samples_by_op: BTreeMap::new(),
         }
     }
 
@@ -52,8 +58,16 @@ impl Trace {
     pub fn op(&mut self, lhs: &str, result: &str, nontrivial: bool) {
         writeln!(self.out, "{} => {}", lhs, result).unwrap();
         self.evaluations += 1;
+        let opname = lhs.split(' ').nth(1).unwrap_or("?").to_string();
+        *self.evals_by_op.entry(opname.clone()).or_insert(0) += 1;
         if nontrivial {
-            self.distinct.insert(fnv(lhs));
+            let h = fnv(lhs);
+            self.distinct.insert(h);
+            self.distinct_by_op.entry(opname.clone()).or_default().insert(h);
+        }
+        let sv = self.samples_by_op.entry(opname).or_default();
+        if sv.len() < 3 && (sv.is_empty() || self.evaluations % 97 == 0) {
+            sv.push(format!("{} => {}", lhs, result));
         }
         if self.evaluations % self.sample_stride == 0 && self.samples.len() < 12 {
             self.samples.push(format!("{} => {}", lhs, result));
@@ -87,6 +101,18 @@ impl Trace {
         for (k, v) in extra {
             write!(s, "  {}: {},\n", json_str(k), v).unwrap();
         }
+        s.push_str("  \"by_op\": {");
+        for (i, (k, v)) in self.evals_by_op.iter().enumerate() {
+            if i > 0 {
+                s.push_str(", ");
+            }
+            let d = self.distinct_by_op.get(k).map(|x| x.len()).unwrap_or(0);
+            let empty = Vec::new();
+            let sm = self.samples_by_op.get(k).unwrap_or(&empty);
+            let sms: Vec<String> = sm.iter().map(|x| json_str(x)).collect();
+            write!(s, "{}: {{\"evaluations\": {}, \"distinct_nontrivial\": {}, \"samples\": [{}]}}", json_str(k), v, d, sms.join(", ")).unwrap();
+        }
+        s.push_str("},\n");
         s.push_str("  \"histogram\": {");
         for (i, (k, v)) in self.hist.iter().enumerate() {
             if i > 0 {
